@@ -80,7 +80,7 @@ def run(tier):
     rng = A.rng_for(chk, "c04")
     # long repetition of a sample (N = 200), biased towards workloads that make the heap trim
     big = [i for i in range(n_tlc) if classes[-1] in plans[i]["blocks"]]
-    for i in rng.sample(big, 24 if quick else 100) + rng.sample(range(n_tlc), 6 if quick else 50):
+    for i in rng.sample(big, 16 if quick else 100) + rng.sample(range(n_tlc), 4 if quick else 50):
         p = dict(plans[i])
         p.update({"reps": 200, "base": 100, "walk": False, "src": "tlc-workload-long", "os": rng.choice("bdd"), "rand_place": rng.random() < 0.3,
                   "seed": rng.randrange(1, 1 << 40)})
@@ -95,7 +95,7 @@ def run(tier):
                       "src": "boundary-workload"})
     # churn: allocations and frees interleave (this is where freed space must be reused)
     small = A.small_classes(k)
-    for i in range(40 if quick else 250):
+    for i in range(30 if quick else 250):
         plans.append({"kind": "churn", "seed": rng.randrange(1, 1 << 40), "period": rng.choice([40, 100, 200] if quick else [60, 150, 300]),
                       "slots": rng.choice([6, 16, 40]), "max": rng.choice([3000, 70000, 400000]), "reps": reps,
                       "base": reps // 2, "os": rng.choice("bad"), "rand_place": i % 2 == 1, "classes": small,
@@ -116,21 +116,30 @@ def run(tier):
                       "reps": 200, "base": 100, "os": "b", "rand_place": True, "classes": small, "watchdog": 900,
                       "src": "churn-2e5"})
 
+    # real-OS runs: no hook table, the raw mmap/mremap/munmap wrappers of dlmalloc.rs run against
+    # the real kernel; the footprint is the growth of the process' address space (VmSize from
+    # /proc/self/statm, sampled after every call), judged by SteadyState only
+    real_plans = []
+    for i in rng.sample(big, 16 if quick else 120) + rng.sample(range(n_tlc), 14 if quick else 120):
+        p = {"kind": "work", "blocks": plans[i]["blocks"], "free": plans[i]["free"], "reps": 60, "base": 30, "real": True,
+             "spacers": len(real_plans) % 2 == 1, "src": "real-os-workload"}
+        real_plans.append(p)
     # debug build (assertions on) for the TLC workloads, release build for the rest;
     # processed in chunks so that memory stays bounded
     jobs = [("debug", bin_dbg, plans[:n_tlc]), ("release", bin_rel, plans[n_tlc:])]
     CH = 1200
-    work = [(build, bindir, pl[i:i + CH], i) for build, bindir, pl in jobs for i in range(0, len(pl), CH)]
+    work = [(build, bindir, pl[i:i + CH], i, False) for build, bindir, pl in jobs for i in range(0, len(pl), CH)]
+    work += [("debug-realos", bin_dbg, real_plans, 0, True), ("release-realos", bin_rel, real_plans, 0, True)]
     t0 = time.time()
     stats = {"runs": 0, "events": 0, "ops": 0, "os_map_requests": 0, "os_releases": 0, "repetitions": 0,
-             "max_footprint_over_peak_live": 0.0, "runs_with_transient_after_rep2": 0, "crashes": 0}
+             "max_footprint_over_peak_live": 0.0, "runs_with_transient_after_rep2": 0, "crashes": 0, "real_os_runs": 0}
     nontrivial = set()
-    nxt = pool.submit(A.run_driver, chk, work[0][1], work[0][2], "%s_%d" % (work[0][0], work[0][3])) if work else None
-    for wi, (build, bindir, pl, off) in enumerate(work):
+    nxt = pool.submit(A.run_driver, chk, work[0][1], work[0][2], "%s_%d" % (work[0][0], work[0][3]), 1800, work[0][4]) if work else None
+    for wi, (build, bindir, pl, off, real) in enumerate(work):
         events, crashes = nxt.result()
         if wi + 1 < len(work):
             w2 = work[wi + 1]
-            nxt = pool.submit(A.run_driver, chk, w2[1], w2[2], "%s_%d" % (w2[0], w2[3]))
+            nxt = pool.submit(A.run_driver, chk, w2[1], w2[2], "%s_%d" % (w2[0], w2[3]), 1800, w2[4])
         t1 = time.time()
         runs, bad = A.judge(chk, events, "%s_%d" % (build, off), procs=6, cfg=cfg)
         core.log("%s build, plans %d..%d: driver done at +%.1fs (%d events), TLC judge %.1fs" % (
@@ -139,6 +148,8 @@ def run(tier):
         stats["crashes"] += len(crashes)
         stats["runs"] += len(runs)
         stats["events"] += len(events)
+        if real:
+            stats["real_os_runs"] += len(runs)
         for r in runs:
             fps = [e["fp"] for e in r if e["ev"] == "rep"]
             stats["repetitions"] += len(fps)
@@ -197,6 +208,7 @@ def run(tier):
         "SteadyState: memory still held at a repetition mark after the first N/2 repetitions <= the most ever held during the first N/2 repetitions + one granularity (a heap that is trimmed after some repetitions and not after others - the OS placed a segment differently - is not growing); runs whose marks after repetition 2 exceed the marks of repetitions 1..2 by more than a granularity are counted as runs_with_transient_after_rep2, not judged",
         "Envelope (workload runs only): footprint <= 2 x peak padded demand + 2 x trim threshold, padded demand of a block = size + 2 x align + 256 + granularity",
         "NoGratuitousMap: an OS request is gratuitous if size + 2 x align + 256 bytes fit into one block-free extent of a single OS-granted piece",
+        "real-OS runs (raw syscall wrappers against the real kernel): footprint = growth of the process' VmSize, which also contains whatever the recorder itself maps (its output buffer is pre-reserved); only SteadyState is judged there (60 repetitions, baseline 30)",
         "never trimming alone does not violate the property as stated (held memory stays bounded by peak demand) and is not flagged",
         "multi-threaded runs: 2-4 std threads share one Dlmalloc behind tiny_std::sync::Mutex (lock, one call, unlock; the recorder sits in the same critical section so the log order is the execution order) - the composition of the private GlobalDlMalloc wrapper, which itself is only compiled with feature global-allocator and cannot be enabled in a std-linked harness; thread interleavings are whatever the OS scheduler produces (not controlled), therefore SteadyState is not judged on these runs (the concurrent demand differs between repetitions), Envelope / NoGratuitousMap / ReleaseOnce are",
     ]
